@@ -347,29 +347,32 @@ const ZRTT_IDS: [ParameterId; 8] = [
 ];
 const ZRTT_DEFAULT: [u64; 8] = [0, 0, 0, 0, 0, 0, 2, 0];
 
-/// Build a server parameter set in which the N 0-RTT relevant parameters ZRTT_IDS[OFF..OFF+N] are
-/// explicitly present with symbolic (valid) values, the others absent (read as their defaults).
-fn zrtt_set<const OFF: usize, const N: usize>() -> (ServerParameters, [u64; 8]) {
+/// Build a server parameter set in which the 0-RTT relevant parameters ZRTT_IDS[k] with bit k of
+/// MASK set are explicitly present with symbolic (valid) values, the others absent (read as their
+/// defaults).
+fn zrtt_set<const MASK: u8>() -> (ServerParameters, [u64; 8]) {
     let mut p = ServerParameters::new();
     let mut eff = ZRTT_DEFAULT;
-    let mut k = OFF;
-    while k < OFF + N {
-        let v = any_varint();
-        if k == 6 {
-            kani::assume(v.into_u64() >= 2);
+    let mut k = 0;
+    while k < 8 {
+        if MASK & (1 << k) != 0 {
+            let v = any_varint();
+            if k == 6 {
+                kani::assume(v.into_u64() >= 2);
+            }
+            let r = p.set(ZRTT_IDS[k], v);
+            assert!(r.is_ok());
+            core::mem::forget(r);
+            eff[k] = v.into_u64();
         }
-        let r = p.set(ZRTT_IDS[k], v);
-        assert!(r.is_ok());
-        core::mem::forget(r);
-        eff[k] = v.into_u64();
         k += 1;
     }
     (p, eff)
 }
 
-fn zrtt_check<const OFF_O: usize, const N_O: usize, const OFF_N: usize, const N_N: usize>() {
-    let (old, e_old) = zrtt_set::<OFF_O, N_O>();
-    let (new, e_new) = zrtt_set::<OFF_N, N_N>();
+fn zrtt_check<const MASK_OLD: u8, const MASK_NEW: u8>() {
+    let (old, e_old) = zrtt_set::<MASK_OLD>();
+    let (new, e_new) = zrtt_set::<MASK_NEW>();
     let got = old.is_0rtt_accepted(&new);
     let mut want = true;
     let mut k = 0;
@@ -387,30 +390,37 @@ fn zrtt_check<const OFF_O: usize, const N_O: usize, const OFF_N: usize, const N_
 }
 
 /// C18: remembered parameters are honoured for 0-RTT iff each of the eight limits in the new set
-/// is no smaller. First four limits (initial_max_data, initial_max_stream_data_*) present in both
-/// sets with symbolic full-range values, the other four absent (defaults) in both.
+/// is no smaller. The four data limits (initial_max_data, initial_max_stream_data_*) present in
+/// both sets with symbolic full-range values, the other four absent (defaults) in both.
 #[kani::proof]
 #[kani::unwind(10)]
 #[kani::stub(core::fmt::write, stub_fmt_write)]
 fn c18_zero_rtt_first_four() {
-    zrtt_check::<0, 4, 0, 4>();
+    zrtt_check::<0x0f, 0x0f>();
 }
 
-/// C18: same for the last four limits (initial_max_streams_bidi/uni, active_connection_id_limit,
-/// max_datagram_frame_size).
+/// C18: same for initial_max_streams_bidi / _uni and max_datagram_frame_size.
 #[kani::proof]
 #[kani::unwind(10)]
 #[kani::stub(core::fmt::write, stub_fmt_write)]
-fn c18_zero_rtt_last_four() {
-    zrtt_check::<4, 4, 4, 4>();
+fn c18_zero_rtt_streams_datagram() {
+    zrtt_check::<0xb0, 0xb0>();
 }
 
-/// C18: absent parameters are compared as their defaults: the remembered set has limits 2..6
-/// present, the new set limits 4..8 (so every combination present/absent occurs for some limit,
-/// incl. active_connection_id_limit whose default is 2).
+/// C18: active_connection_id_limit (the one bounded limit, default 2) remembered but absent in the
+/// new set: compared with the default. (Present in both sets: CBMC runs out of memory.)
+#[kani::proof]
+#[kani::unwind(10)]
+#[kani::stub(core::fmt::write, stub_fmt_write)]
+fn c18_zero_rtt_cid_limit_old_only() {
+    zrtt_check::<0x40, 0x00>();
+}
+
+/// C18: absent parameters are compared as their defaults: remembered set has initial_max_data and
+/// initial_max_streams_uni present, the new set initial_max_data and initial_max_streams_bidi.
 #[kani::proof]
 #[kani::unwind(10)]
 #[kani::stub(core::fmt::write, stub_fmt_write)]
 fn c18_zero_rtt_defaults() {
-    zrtt_check::<2, 4, 4, 4>();
+    zrtt_check::<0x21, 0x11>();
 }
